@@ -9,8 +9,9 @@ Driver for C15. Input lines (blank-separated `key=value` tokens after the op nam
   node id=<eid> agents=<eid,..> listeners=<eid,..> receivers=<eid,..>
        the node under test, as configured by the harness (what `Core.HasEndpoint` looks at)
 
-  sc n=<idx> entry=<recv|dup|submit|foreign|retry> want=<name> flags=<n> frag=<-|off:total> src=<eid>
+  sc n=<idx> entry=<recv|dup|submit|foreign|retry|pending> want=<name> flags=<n> frag=<-|off:total> src=<eid>
      ts=<time>:<seq> dst=<eid> rto=<eid> rcv=<eid> blocks=<-|f,f,..> self=<0|1> destlocal=<0|1>
+     peers=<n> loadable=<0|1>
      hop=<0|1> expired=<0|1> sends=<ok>:<failed> dlv=<n> stored=<0|1> t0=<ms> t1=<ms> undec=<n>
      stray=<n> reports=<-|R;R;..> cascade=<n|-> [panic=<text>]
        one subject bundle driven through a real Core. Inputs: the subject's primary-block fields,
@@ -157,6 +158,7 @@ def wantMatches (want : String) (d : Outcome) : Bool :=
   | "allfailed" => d == .allFailed
   | "expired" => d == .lifetimeExpired
   | "hop" => d == .hopExceeded
+  | "notdispatched" => d == .notDispatched
   | _ => true
 
 def handleSc (node : Node) (kv : List (String × String)) : String :=
@@ -228,7 +230,9 @@ def handleSc (node : Node) (kv : List (String × String)) : String :=
     -- correspondence with the model
     let d : Outcome :=
       if dlv > 0 then .deliveredAgent
+      else if (get "loadable") == some "0" then .notDispatched -- the stored bytes fail CheckValid on load
       else if bit "destlocal" then .noAgent
+      else if (get "peers") == some "0" then .notDispatched   -- nobody to send to: nothing is dispatched
       else if bit "hop" then .hopExceeded
       else if bit "expired" then .lifetimeExpired
       else if okS > 0 then .forwarded
@@ -240,6 +244,7 @@ def handleSc (node : Node) (kv : List (String × String)) : String :=
       | "dup" => some .receiveKnown
       | "submit" => some (.submit d)
       | "retry" => some (.retry d)
+      | "pending" => some (.retry d)
       | "foreign" => some .submitForeign
       | _ => none
     match flow? with
